@@ -127,6 +127,7 @@ FirstIdx(p, out, i) == IF i > Len(out) THEN 0
 \* index in `out` of the first wanted element, 0 if none
 FirstMatch(p, out) == FirstIdx(p, out, 1)
 
+
 RECURSIVE XorNat(_, _)
 XorNat(x, y) == IF x = 0 /\ y = 0 THEN 0
                 ELSE (((x % 2) + (y % 2)) % 2) + 2 * XorNat(x \div 2, y \div 2)
@@ -194,8 +195,9 @@ RootOf(p, k) == k \div Pow(FAN, NumFlat(p))
 (* of the collected sequence instead of the sequence; the same digests are *)
 (* computed here from the sequential semantics.                            *)
 (***************************************************************************)
-IsBig(p) == "n" \in DOMAIN p /\ p.n > Len(p.input)
-SrcLen(p) == IF IsBig(p) THEN p.n ELSE Len(p.input)
+\* (an explicit input of more than 2000 values is treated the same way: digests, no call log)
+IsBig(p) == ("n" \in DOMAIN p /\ p.n > Len(p.input)) \/ Len(p.input) > 2000
+SrcLen(p) == IF "n" \in DOMAIN p /\ p.n > Len(p.input) THEN p.n ELSE Len(p.input)
 HM == 46337
 HX(e) == (e.k * 7 + e.v + 1) % HM
 
@@ -242,6 +244,20 @@ RangeDigest(p, st, lo, hi) ==
        ELSE LET mid == lo + ((hi - lo) \div 2)
             IN  JoinDigest(RangeDigest(p, st, lo, mid), RangeDigest(p, st, mid, hi))
 BigDigest(p) == RangeDigest(p, Stages(p), 0, SrcLen(p))
+
+RECURSIVE BigFirstIn(_, _, _, _)
+\* first wanted output among source positions lo .. hi-1 of a big program: <<>> or <<elem>>
+BigFirstIn(p, st, lo, hi) ==
+  IF hi <= lo THEN <<>>
+  ELSE IF hi - lo = 1
+       THEN LET out == OutOnly(st, 1, Elem(lo, p.input[(lo % Len(p.input)) + 1]))
+                i == FirstMatch(p, out)
+            IN  IF i = 0 THEN <<>> ELSE <<out[i]>>
+       ELSE LET mid == lo + ((hi - lo) \div 2)
+                l == BigFirstIn(p, st, lo, mid)
+            IN  IF l # <<>> THEN l ELSE BigFirstIn(p, st, mid, hi)
+BigFirst(p) == BigFirstIn(p, Stages(p), 0, SrcLen(p))
+
 
 (***************************************************************************)
 (* The transformation table of the builder: type x transformation ->       *)
